@@ -167,7 +167,7 @@ def rewrite_rename(src: str) -> str:
 
 
 REWRITES = {'unparse': rewrite_unparse, 'noise': rewrite_noise, 'rename': rewrite_rename}
-GATING = {'unparse', 'noise'}   # 'rename' is reported, not gating, until every rule resolves its locals by role
+GATING = {'unparse', 'noise'}   # under 'rename' a rule may become UNRESOLVED (vocabulary guard) but a HOLDS -> VIOLATED change is a broken checker
 
 
 def _run_rewrite(args):
@@ -211,8 +211,8 @@ def self_validate(pid: str, repo_root: str, chk: Check) -> dict:
     for name, diffs, errors, vdetail in rres:
         out['rewrites'][name] = {'verdict_changes': {k: list(v) for k, v in diffs.items()}, 'errors': errors[:4], 'violations': vdetail[:4]}
         for rid, (old, new) in diffs.items():
-            if name not in GATING:
-                continue
+            if name not in GATING and new != VIOLATED:
+                continue     # alpha-renaming may take a rule out of its vocabulary (UNRESOLVED, exit 2) but must never produce a violation
             out['broken'].append(f'behaviour-preserving rewrite {name!r} changed the verdict of {rid}: {old} -> {new} ({(vdetail or errors or [""])[0]})')
     out['wall_s'] = round(time.time() - t0, 2)
     chk.out(f'  self-validation: {len(out["killed"])}/{len(mutants) - len(out["skipped"])} applicable mutants reported '
